@@ -50,7 +50,10 @@ def write_replay(pid, rec, info):
         h = rec["_h"]
         lines.append(f"replay_cmd: {VERIF}/bin/vcheck --replay {path}")
         lines.append(f"harness: {h.full}")
-        test, out = kani_run.concrete_playback(h)
+        test, out = (None, "") if info.setdefault("playbacks", set()) & {rec["name"]} else kani_run.concrete_playback(h)
+        info["playbacks"].add(rec["name"])
+        if test is None and not out:
+            lines.append("(concrete playback already produced for another instantiation of this obligation in this run)")
         if test:
             has_input = True
             lines += ["", "concrete counterexample (Kani concrete playback; a unit test that drives the REAL code with these bytes):", "```", test.rstrip(), "```"]
@@ -80,6 +83,21 @@ def main(argv):
         return 0 if rc == 0 else 2
     if argv[0] == "--replay":
         return replay(argv[1])
+    if argv[0] == "--dev-kani":      # development aid: run every harness of one /verif/kani/<file>.rs (optionally filtered by substring)
+        hs = [h for h in kani_run.load_registry() if h.file == argv[1] and (len(argv) < 3 or argv[2] in h.full)]
+        res, raw, cmd, wall = kani_run.run_batch(hs)
+        write(os.path.join(CACHE, "logs", "dev-kani.log"), raw)
+        bad = 0
+        for h in hs:
+            r = res[h.full]
+            print(f"{r['status']:8} {r['time_s']:7.1f}s checks={r['checks']:5} covers={r['covers']} {h.full.split('verif_hooks::proofs::')[1]}")
+            for fc in r["failed_checks"]:
+                print("      FAILED:", fc["description"], fc.get("file", ""), fc.get("line", ""))
+            bad += r["status"] != "success"
+        print(f"{len(hs)} harnesses, {bad} not successful, wall {wall:.0f}s")
+        if bad and "error" in raw:
+            print(raw[-3000:])
+        return 1 if bad else 0
     pid = argv[0]
     tier = os.environ.get("VERIF_TIER", "quick")
     if "--tier" in argv:
